@@ -629,6 +629,165 @@ def check_C19(tier, seed, replay):
     return res
 
 
-CHECKS = {"C01": check_C01, "C02": check_C02, "C04": check_C04, "C05": check_C05, "C06": check_C06,
+
+# ---------------------------------------------------------------------------------------------- tools
+def tools_bin(name):
+    """build harness/tools against /repo's current tree -> path of the binary"""
+    import subprocess
+    cd = os.path.join(vlib.VERIF, "harness", "tools")
+    p_ = subprocess.run(["cargo", "build", "--offline", "--bin", name], cwd=cd, env=vlib.cargo_env(),
+                        stdout=subprocess.PIPE, stderr=subprocess.PIPE, text=True)
+    if p_.returncode != 0:
+        raise ToolError("building harness tool %s failed:\n%s" % (name, p_.stderr[-3000:]))
+    return os.path.join(vlib.WORK, "target", "debug", name)
+
+
+def tlc_simple(name, module, cfg, tier, env=None, workers=None, timeout=3600):
+    """run a self-contained spec, cached on the tool hash -> parsed output"""
+    d = vlib.famdir(name, tier)
+    key = "tlc:%s:%s" % (vlib.tool_hash(), cfg)
+    out = os.path.join(d, "tlc.out")
+    pj = out + ".json"
+    if vlib.cached(d, "tlc", key) and os.path.exists(pj):
+        return json.load(open(pj))
+    rc, secs = vlib.run_tlc(module, cfg, out, env=env, workers=workers, timeout=timeout, extra=("-coverage", "1"))
+    r = vlib.parse_tlc_output(out)
+    r["rc"], r["secs"] = rc, secs
+    log("TLC %s %s: rc=%d %d states, %d outputs in %.0fs" % (module, cfg, rc, r["distinct"], len(r["prints"]), secs))
+    if rc == -9:
+        raise ToolError("TLC timed out on %s" % module)
+    if rc != 0 and r["violation"] is None:
+        raise ToolError("TLC failed on %s (rc=%d), see %s" % (module, rc, out))
+    json.dump(r, open(pj, "w"))
+    if rc == 0:
+        vlib.mark(d, "tlc", key)
+    return r
+
+
+# ---------------------------------------------------------------------------------------------- C11
+ANSI = None
+
+
+def strip_ansi(s_):
+    global ANSI
+    import re
+    if ANSI is None:
+        ANSI = re.compile(r"\x1b\[[0-9;]*m")
+    return ANSI.sub("", s_)
+
+
+def parse_pretty(disp, file):
+    """-> (line, col, echoed line, caret column) from the Display output"""
+    import re
+    ls = disp.split("\n")
+    if len(ls) < 5:
+        raise ValueError("unexpected shape")
+    loc = ls[1]
+    if not loc.startswith("--> "):
+        raise ValueError("no location line")
+    loc = loc[4:]
+    if file is None:
+        m = re.match(r"^Line (\d+) character (\d+)$", loc)
+    else:
+        m = re.match(r"^" + re.escape(file) + r":(\d+):(\d+)$", loc)
+    if not m:
+        raise ValueError("location line %r" % loc)
+    if not ls[3].startswith(" |  ") or not ls[4].startswith(" |  "):
+        raise ValueError("no gutter")
+    echoed = ls[3][4:]
+    caret = ls[4][4:]
+    if caret.strip() != "^":
+        raise ValueError("caret line %r" % caret)
+    return int(m.group(1)), int(m.group(2)), echoed, caret.index("^") + 1
+
+
+def check_C11(tier, seed, replay):
+    import subprocess
+    res = Result()
+    t = tlc_simple("pretty", "PrettyError.tla", "PrettyError_%s.cfg" % tier, tier)
+    if t["rc"] != 0:
+        raise ToolError("PrettyError: the scanner machine contradicts the property's definition:\n%s" % (t["violation"] or "")[:2000])
+    exp = t["prints"]
+    if replay:
+        rp = json.load(open(replay))
+        exp = [e for e in exp if e["text"] == rp["case"]["text"] and e["pos"] == rp["case"]["pos"]]
+    # long random texts beyond the enumerated bound: expectations computed by the definition itself
+    import random
+    rnd = random.Random(seed * 31 + 11)
+    extra = []
+    if not replay:
+        for _ in range(200 if tier == "quick" else 5000):
+            n = rnd.randint(5, 60)
+            cps = [rnd.choice([97, 98, 32, 10, 233, 36947, 128512, 9]) for _ in range(n)]
+            k = rnd.randint(0, n)
+            txt = "".join(map(chr, cps))
+            pos = len(txt[:k].encode("utf-8"))
+            before = txt[:k]
+            lstart = before.rfind("\n") + 1
+            lend = txt.find("\n", k)
+            lend = len(txt) if lend < 0 else lend
+            extra.append({"text": cps, "pos": pos, "line": before.count("\n") + 1, "col": k - lstart + 1,
+                          "linetext": [ord(c) for c in txt[lstart:lend]], "random": True})
+    d = vlib.famdir("pretty", tier)
+    cases = []
+    for e in exp + extra:
+        for file in (None, "dir/g.ebnf"):
+            cases.append((e, file))
+    cf = os.path.join(d, "cases.tsv")
+    with open(cf, "w") as f:
+        for e, file in cases:
+            f.write("%s\t%d\t%s\n" % ("".join(map(chr, e["text"])).encode("utf-8").hex(), e["pos"], file or "-"))
+    binp = tools_bin("pretty")
+    of = os.path.join(d, "out.jsonl")
+    p_ = subprocess.run([binp, cf, of], stdout=subprocess.PIPE, stderr=subprocess.PIPE, text=True, timeout=3600)
+    if p_.returncode != 0:
+        raise ToolError("pretty runner failed: rc=%d %s" % (p_.returncode, p_.stderr[-500:]))
+    outs = [json.loads(l) for l in open(of)]
+    nontriv = 0
+    for (e, file), o in zip(cases, outs):
+        text = "".join(map(chr, e["text"]))
+        ident = {"case": {"text": e["text"], "pos": e["pos"], "file": file}}
+        site = "empty-text" if not e["text"] else ("line-start" if e["col"] == 1 and e["line"] > 1 else
+                                                   "line-end" if e["pos"] == len(text.encode()) or text.encode()[e["pos"]:e["pos"] + 1] == b"\n" else "inside")
+        if e["line"] > 1 or any(c > 127 for c in e["text"]):
+            nontriv += 1
+        for mode in ("plain", "colored"):
+            r = o[mode]
+            if "panic" in r:
+                res.add(Violation("C11", "NoPanic", "from_parse_error panics (%s) on text %r position %d" % (
+                    r["panic"], text, e["pos"]), None, dict(ident, site=site, name=mode)))
+                continue
+            try:
+                line, col, echoed, caret = parse_pretty(strip_ansi(r["display"]), file)
+            except ValueError as ex:
+                res.add(Violation("C11", "Shape", "unexpected Display output (%s): %r" % (ex, r["display"]), None,
+                                  dict(ident, site=site, name=mode)))
+                continue
+            want_line = "".join(map(chr, e["linetext"])).rstrip()
+            if (line, col) != (e["line"], e["col"]):
+                res.add(Violation("C11", "LineCol", "text %r position %d: reported line %d column %d, expected line %d column %d" % (
+                    text, e["pos"], line, col, e["line"], e["col"]), None, dict(ident, site=site, name=mode)))
+            elif echoed.rstrip() != want_line:
+                res.add(Violation("C11", "LineText", "text %r position %d: printed line %r, expected %r" % (
+                    text, e["pos"], echoed, want_line), None, dict(ident, site=site, name=mode)))
+            elif caret != e["col"]:
+                res.add(Violation("C11", "Caret", "text %r position %d: caret under column %d, expected %d" % (
+                    text, e["pos"], caret, e["col"]), None, dict(ident, site=site, name=mode)))
+    res.coverage = {
+        "states": t["distinct"], "transitions": t["states"], "traces_validated_against_impl": len(cases),
+        "evaluations": len(cases) * 2, "distinct_nontrivial": nontriv,
+        "rule": "every text over {a, space, newline, e-acute, U+9053} up to the length bound x every boundary position "
+                "0..=len (enumerated by TLC, expectation from the scanner machine) plus seeded random long texts; each "
+                "with and without a file name, colours off and on; non-trivial = position beyond the first line or a "
+                "multi-byte text",
+        "exhaustive": True,
+        "samples": [{"text": "".join(map(chr, e["text"])), "pos": e["pos"], "expected": [e["line"], e["col"]],
+                     "display": o["plain"]} for (e, f_), o in list(zip(cases, outs))[5:400:150]],
+    }
+    res.assumptions = ["the echoed line is compared modulo trailing whitespace, which the renderer trims"]
+    return res
+
+
+CHECKS = {"C11": check_C11, "C01": check_C01, "C02": check_C02, "C04": check_C04, "C05": check_C05, "C06": check_C06,
           "C07": check_C07, "C08": check_C08, "C09": check_C09, "C10": check_C10, "C13": check_C13,
           "C14": check_C14, "C19": check_C19}
